@@ -381,6 +381,45 @@ class Shadow:
         self.compare('after-conflict')
         self.compare_committed('after-conflict')
 
+    def op_serialize_failure(self):
+        """the commit fails in the store phase because a *new* object (implicitly new, or explicitly added) cannot be
+        serialized: nothing is stored, every new object is disowned and keeps its state"""
+        from zv.objs import Cell, SerializeFailure
+        owned = [k for k in self.R if self.owned(k)]
+        src = self.rnd.choice(owned)
+        bad = self.fresh()
+        if self.rnd.random() < 0.3:
+            self.conn.add(self.R[bad])
+            self.added.add(bad)
+        self.uid += 1
+        cur = self.visible(src)
+        edges = dict(cur[1])
+        edges['e%d' % self.uid] = bad
+        self._set(src, (cur[0], edges))
+        if self.rnd.random() < 0.5:
+            # the failing object itself refers to another new object
+            child = self.fresh()
+            self.R[bad].refs['c'] = self.R[child]
+            self.mem[bad] = (self.mem[bad][0], {'c': child})
+        before = self.st.lastTransaction()
+        Cell.FAIL_IDS.add(id(self.R[bad]))
+        try:
+            try:
+                self.tm.commit()
+                raise Diverged('commit-succeeded-although-an-object-could-not-be-serialized', {'object': bad})
+            except SerializeFailure:
+                pass
+        finally:
+            Cell.FAIL_IDS.discard(id(self.R[bad]))
+        self.tm.abort()
+        if self.st.lastTransaction() != before:
+            raise Diverged('failed-commit-stored-a-transaction', {'phase': 'serialize'})
+        self._abort_model()
+        self.trace.append('serialize-failure(%d)' % bad)
+        self.count('failed_commits_serialize')
+        self.compare('after-serialize-failure')
+        self.compare_committed('after-serialize-failure')
+
     def op_foreign_failure(self):
         phase = self.rnd.choice(['tpc_begin', 'commit', 'tpc_vote'])
         key = self.rnd.choice(['!before', '~~~after'])
@@ -466,6 +505,58 @@ class Shadow:
         self.trace.append('reopen')
         self.count('reopens')
         self.compare('after-reopen')
+
+    def op_refused_write(self):
+        """a write the connection cannot take because it cannot join a transaction (made through a kept reference while the
+        connection is closed, or - explicit transaction manager - before begin()): it raises, changes nothing, and the
+        connection works normally afterwards"""
+        if self.work or self.added or self.layers:
+            return
+        owned = [k for k in self.R if k != 0 and self.owned(k) and k in self.committed]
+        if not owned:
+            return
+        k = self.rnd.choice(owned)
+        o = self.R[k]
+        self.tm.abort()
+        how = self.rnd.choice(['closed', 'explicit-before-begin'])
+        if how == 'closed':
+            self.conn.close()
+        else:
+            o._p_activate()
+            self.tm.explicit = True
+        try:
+            o.payload = 'write the connection had to refuse'
+            accepted = True
+        except Exception:
+            accepted = False
+        if how != 'closed':
+            # an explicit add that cannot be registered either: the object must stay a plain Python object
+            from zv.objs import Cell
+            stray = Cell('never added')
+            try:
+                self.conn.add(stray)
+                accepted = True
+            except Exception:
+                if stray._p_oid is not None or stray._p_jar is not None:
+                    self.tm.explicit = False
+                    self.tm.abort()
+                    raise Diverged('object-of-a-refused-add-keeps-oid-or-jar', {'how': how})
+            self.count('refused_adds')
+        if how == 'closed':
+            c = self.db.open(self.tm)
+            if c is not self.conn:
+                self.R = {kk: c.get(oo._p_oid) for kk, oo in self.R.items() if kk in self.committed}
+                self.mem = {kk: self.committed[kk] for kk in self.R}
+                self.conn = c
+        else:
+            self.tm.explicit = False
+            self.tm.abort()
+        if accepted:
+            # (a storage-less write that went through would have to be an ordinary modification; none of the bundled paths allows it)
+            raise Diverged('write-accepted-although-the-connection-could-not-join', {'how': how, 'object': k})
+        self.trace.append('refused-write(%s)' % how)
+        self.count('refused_writes')
+        self.compare('after-refused-write')
 
     def finish(self):
         try:
